@@ -770,7 +770,7 @@ class VacancyMediated(object):
 
         self.thermo.generate(Nthermo, originstates=False)
         self.kinetic.generate(Nthermo + 1, originstates=True)  # now include origin states (for removal)
-        self.vkinetic.generate(self.kinetic)
+        self.vkinetic = stars.VectorStarSet(self.kinetic)  # a new one: generate() ignores a star set it already holds
         # TODO: check the GF calculator against the range in GFstarset to make sure its adequate
         self.GFexpansion, self.GFstarset = self.vkinetic.GFexpansion()
 
